@@ -35,7 +35,9 @@
 From VT Require Export Manager.Manager.
 Open Scope N_scope.
 
-Inductive gran := GThread | GAsync.
+(* GLocked = thread granularity of the REPAIRED code: is_connected + pre_disconnect form one
+   critical section (a lock, or a test-and-mark inside the manager); not the pinned tree *)
+Inductive gran := GThread | GAsync | GLocked.
 
 Inductive cause :=
 | CApi (sid ns : str)
@@ -199,7 +201,16 @@ Definition block (R : list str) (m : mgr) (env : list str) (t : task)
   let '(m2, env2, t2, l2) := cont R (measure m1 t1) m1 env1 t1 in
   (m2, env2, t2, l1 ++ l2).
 
-Definition move (g : gran) := match g with GThread => micro | GAsync => block end.
+(* the repaired check-then-mark: a task that has passed its check marks in the same step *)
+Definition locked (R : list str) (m : mgr) (env : list str) (t : task)
+  : mgr * list str * task * list lbl :=
+  let '(m1, env1, t1, l1) := micro R m env t in
+  match t_pc t1 with
+  | PMark _ => let '(m2, env2, t2, l2) := micro R m1 env1 t1 in (m2, env2, t2, l1 ++ l2)
+  | _ => (m1, env1, t1, l1)
+  end.
+
+Definition move (g : gran) := match g with GThread => micro | GAsync => block | GLocked => locked end.
 
 (* ---- configurations and schedules ---- *)
 Fixpoint upd {A} (l : list A) (i : nat) (x : A) : list A :=
